@@ -23,6 +23,7 @@ if grep -q deadpool_sqlite $demo 2>/dev/null; then dpkg=deadpool-sqlite; ddir=sq
 if [ -f /verif/seeded/$id/demo_path.txt ]; then
   dp=$(cat /verif/seeded/$id/demo_path.txt); top=${dp%%/*}
   if [ "$top" != tests ] && [ "$top" != "$crate" ]; then ddir=$top/tests; dpkg=deadpool-$top; dfeat=""; fi
+  if [ "$top" = tests ] && [ "$crate" != src ]; then ddir=tests; dpkg=deadpool; dfeat="--features rt_tokio_1"; fi
 fi
 mkdir -p $ddir; cp $demo $ddir/seeded_demo.rs
 log=/verif/seeded/$id/verify.log; : > $log
